@@ -33,7 +33,14 @@ type Cfg struct {
 	Par     bool   `json:"par"`     // ParallelDispatch
 	Buf     int    `json:"buf"`     // BufferSize
 	Cap     int    `json:"cap"`     // capacity of bounded back-ends
+	InF     int    `json:"inf,omitempty"`  // WithInputFilter: ids divisible by InF are rejected (0 = none)
+	OutF    int    `json:"outf,omitempty"` // WithOutputFilter: ids divisible by OutF are rejected (0 = none)
 }
+
+func passes(k, m int) bool { return k == 0 || m%k != 0 }
+
+// Passes: the message gets through both filters of the distributor.
+func (c Cfg) Passes(m int) bool { return passes(c.InF, m) && passes(c.OutF, m) }
 
 var Backends = []string{"chan", "queue", "deque", "dequeblock", "lifo", "queuelim"}
 
@@ -47,7 +54,7 @@ func (c Cfg) NW() int {
 // Lossless per the property text: unbuffered subscription channels and a
 // channel / unlimited (or blocking) buffer distributor.
 func (c Cfg) Lossless() bool {
-	if c.Buf != 0 {
+	if c.Buf != 0 || c.InF != 0 || c.OutF != 0 {
 		return false
 	}
 	switch c.Backend {
@@ -55,6 +62,13 @@ func (c Cfg) Lossless() bool {
 		return true
 	}
 	return false
+}
+
+// LosslessButFilters: nothing is dropped except what the distributor's filters reject.
+func (c Cfg) LosslessButFilters() bool {
+	d := c
+	d.InF, d.OutF = 0, 0
+	return d.Lossless()
 }
 
 func (c Cfg) Bounded() bool {
@@ -77,11 +91,11 @@ func (c Cfg) Coq() string {
 	if c.Par {
 		par = "true"
 	}
-	return fmt.Sprintf("(mkCfg %d %s %d %s %s %s true)", c.W, par, c.Buf, chanb, dcap, pol)
+	return fmt.Sprintf("(mkCfg %d %s %d %s %s %s true %d %d false)", c.W, par, c.Buf, chanb, dcap, pol, c.InF, c.OutF)
 }
 
 func (c Cfg) Key() string {
-	return fmt.Sprintf("%s/w%d/par%v/buf%d/cap%d", c.Backend, c.W, c.Par, c.Buf, c.Cap)
+	return fmt.Sprintf("%s/w%d/par%v/buf%d/cap%d/in%d/out%d", c.Backend, c.W, c.Par, c.Buf, c.Cap, c.InF, c.OutF)
 }
 
 // ---------------------------------------------------------------- tapped distributor
@@ -100,6 +114,7 @@ type Tap struct {
 	// after this message has been accepted (the owner shuts the broker's queue
 	// down after the last message)
 	closeAfter atomic.Int64
+	inF        int
 	mu    sync.Mutex
 	sends []SendRec
 	recvs atomic.Int64
@@ -126,8 +141,12 @@ func (t *Tap) tapSend(ctx context.Context, v int) error {
 	if ca := t.closeAfter.Load(); ca != 0 && int64(v) == ca && t.back.close != nil {
 		_ = t.back.close()
 	}
+	res := errKind(err)
+	if res == "ok" && !passes(t.inF, v) {
+		res = "filtered" // the input filter swallowed it: Send returns nil, nothing was enqueued
+	}
 	t.mu.Lock()
-	t.sends = append(t.sends, SendRec{M: v, Res: errKind(err)})
+	t.sends = append(t.sends, SendRec{M: v, Res: res})
 	t.mu.Unlock()
 	return err
 }
@@ -400,7 +419,16 @@ func NewRunner(c Cfg) *Runner {
 	r := &Runner{Cfg: c}
 	r.ctx, r.cancel = context.WithCancel(context.Background())
 	bk := makeBacking(c)
-	r.Tap = &Tap{base: bk.dist, back: bk}
+	d := bk.dist
+	if c.InF > 0 {
+		k := c.InF
+		d = d.WithInputFilter(func(m int) bool { return m%k != 0 })
+	}
+	if c.OutF > 0 {
+		k := c.OutF
+		d = d.WithOutputFilter(func(m int) bool { return m%k != 0 })
+	}
+	r.Tap = &Tap{base: d, back: bk, inF: c.InF}
 	r.B = pubsub.MakeDistributorBroker(r.ctx, r.Tap.Dist(), pubsub.BrokerOptions{BufferSize: c.Buf, ParallelDispatch: c.Par, WorkerPoolSize: c.W})
 	return r
 }
@@ -845,6 +873,9 @@ func (r *Runner) CheckC08(complete bool) {
 			if _, ok := published[v]; !ok {
 				r.fail("C08:broker:foreign", "subscriber %d received %d, which was never published", s.Idx, v)
 			}
+			if !r.Cfg.Passes(v) {
+				r.fail("C08:broker:filtered-delivered", "subscriber %d received %d, which the distributor's filter rejects", s.Idx, v)
+			}
 			if j, dup := seen[v]; dup {
 				r.fail("C08:broker:duplicate", "subscriber %d received %d twice (positions %d and %d)", s.Idx, v, j, i)
 			}
@@ -871,9 +902,9 @@ func (r *Runner) CheckC08(complete bool) {
 				lastPer[p.Pubr] = p.Call
 			}
 		}
-		if complete && r.Cfg.Lossless() && s.ch != nil && !s.Foreign {
+		if complete && r.Cfg.LosslessButFilters() && s.ch != nil && !s.Foreign {
 			for _, p := range r.Pubs {
-				if !p.Returned || p.Call <= s.SubRet {
+				if !p.Returned || p.Call <= s.SubRet || !r.Cfg.Passes(p.M) {
 					continue
 				}
 				if s.UnsubCall != 0 && p.Ret >= s.UnsubCall {
